@@ -41,8 +41,16 @@ class Boom(Exception):
     pass
 
 
+class Abort(BaseException):
+    """A body failure that is not an Exception (like cancellation)."""
+
+
+BODY_EXC = {"ctx_raise": Boom, "ctx_raise_os": OSError, "ctx_raise_base": Abort}
+CTX = ("ctx_ok", "ctx_raise", "ctx_raise_os", "ctx_raise_base")
+
+
 def actions_for(nports):
-    acts = ["start", "stop", "ctx_ok", "ctx_raise"]
+    acts = ["start", "stop", "ctx_ok", "ctx_raise", "ctx_raise_os", "ctx_raise_base"]
     for i in range(nports):
         acts += [f"send{i}", f"occupy{i}", f"release{i}"]
     return acts
@@ -73,7 +81,7 @@ def model_next(m, a, nports):
             m.update(running=True, listening=allp)
     elif a == "stop":
         m.update(running=False, listening=frozenset())
-    elif a in ("ctx_ok", "ctx_raise"):
+    elif a in CTX:
         if start_succeeds(m, nports):
             m.update(running=False, listening=frozenset())
     elif a.startswith("occupy"):
@@ -184,7 +192,7 @@ class World:
             if out[0] != "ok":
                 res.violation("stop-raises", case, f"{tag}: stop -> {out[0]} {out[1]!r}")
                 ok = False
-        elif a in ("ctx_ok", "ctx_raise"):
+        elif a in CTX:
             will = start_succeeds(m, self.nports)
             seen = {}
 
@@ -199,22 +207,22 @@ class World:
                     for _ in range(6):
                         await asyncio.sleep(0)
                     seen["inside"] = [d.name for d in self.bw.calls[n0:]]
-                    if a == "ctx_raise":
-                        raise Boom("body failed")
+                    if a in BODY_EXC:
+                        raise BODY_EXC[a]("body failed")
 
             out = self.bw.run(body())
             if will:
                 if seen.get("entered") is not br or seen.get("running") is not True or seen.get("inside") != ["inside"]:
                     res.violation("context-entry", case, f"{tag}: inside the context is_running={seen.get('running')}, deliveries {seen.get('inside')}")
                     ok = False
-                if a == "ctx_raise" and (out[0] != "exc" or type(out[1]) is not Boom):
-                    res.violation("body-exception-swallowed", case, f"{tag}: body raised Boom, caller saw {out[0]} {out[1]!r}")
+                if a in BODY_EXC and (out[0] != "exc" or type(out[1]) is not BODY_EXC[a]):
+                    res.violation("body-exception-swallowed", case, f"{tag}: body raised {BODY_EXC[a].__name__}, caller saw {out[0]} {out[1]!r}")
                     ok = False
                 if a == "ctx_ok" and out[0] != "ok":
                     res.violation("context-fails", case, f"{tag}: {out[0]} {out[1]!r}")
                     ok = False
-            elif out[0] != "exc" or not isinstance(out[1], OSError):
-                res.violation("failing-start-does-not-raise", case, f"{tag}: async with with a port taken -> {out[0]} {out[1]!r}")
+            elif out[0] != "exc" or not isinstance(out[1], OSError) or seen:
+                res.violation("failing-start-does-not-raise", case, f"{tag}: async with with a port taken -> {out[0]} {out[1]!r} (body entered: {bool(seen)})")
                 ok = False
             if not will and m["running"] and br.is_running is False:
                 self.m = dict(m, running=False, listening=frozenset())
@@ -343,7 +351,7 @@ def run_job(job):
         run_history(nports, actions, res, case)
         res.traces += 1
         res.outcome((nports, tuple(actions[-2:])))
-        res.case(("seq", nports, tuple(actions)), nontrivial=any(a in ("start", "ctx_ok", "ctx_raise") for a in actions))
+        res.case(("seq", nports, tuple(actions)), nontrivial=any(a == "start" or a in CTX for a in actions))
     if job["part"] == "seq" and job["prefix"] == ["occupy1", "start"]:
         res.sample({"ports": nports, "history": ["occupy1", "start", "release1", "start", "stop"][: job["depth"] + 1], "note": "start must fail with port #1 taken and leave port #0 free"})
     return res
